@@ -1144,6 +1144,13 @@ func (c *ctx) optionContract(b *ast.Builder, o *ast.Option, group []ast.Option) 
 		if len(o.Assignments) == 0 {
 			return // nothing to re-target
 		}
+		if unchanged(o, group) {
+			// Lenient (as for unfold_boolean): the action may decline, e.g.
+			// when the first assignment does not store the argument as-is into
+			// a struct (after array_to_append / disjunction_as_options); an
+			// option left as it was still assigns the same target.
+			return
+		}
 		fields := c.pickFields(st.Struct)
 		prefix := o.Assignments[0].Path
 		if len(fields) == 0 {
